@@ -54,8 +54,16 @@ def generate(rng, tier, shard, nshards):
         if r < 0.35:
             yield {'lane': 'random', 'region': gen.pixel_region_spec(rng), 'rs': rng.randrange(2 ** 31)}
         elif r < 0.45:
-            leaf = lambda: gen.pixel_region_spec(rng, classes=gen.MASKABLE + ['LinePixelRegion', 'PointPixelRegion'],
-                                                 size=gen.logu(rng, 0.5, 40), center=(rng.uniform(-40, 40), rng.uniform(-40, 40)))
+            def leaf():
+                if rng.random() < 0.3:
+                    # operands whose own box is degenerate or pixel-aligned: a point on a pixel edge/corner, a line along an edge
+                    hx, hy = rng.randint(-40, 40) + rng.choice([0.5, 0.5, 0.0]), rng.randint(-40, 40) + rng.choice([0.5, 0.5, 0.0])
+                    if rng.random() < 0.5:
+                        return S.reg('PointPixelRegion', center=S.pix(hx, hy))
+                    ex, ey = (hx + rng.randint(-9, 9), hy) if rng.random() < 0.5 else (hx, hy + rng.randint(-9, 9))
+                    return S.reg('LinePixelRegion', start=S.pix(hx, hy), end=S.pix(ex, ey))
+                return gen.pixel_region_spec(rng, classes=gen.MASKABLE + ['LinePixelRegion', 'PointPixelRegion'],
+                                             size=gen.logu(rng, 0.5, 40), center=(rng.uniform(-40, 40), rng.uniform(-40, 40)))
             reg = gen.compound_spec(rng, rng.randint(1, 3), leaf)
             yield {'lane': 'compound', 'region': reg, 'rs': rng.randrange(2 ** 31)}
         else:
